@@ -116,11 +116,25 @@ func init() {
 		_, _, s := c11CramBlockCanon(b)
 		return c11Val{nvals: 1, canon: fmt.Sprintf("%s %d", s, br.Len())}, nil
 	})
-	c11Register("cram.Block.Value", func(in []byte) (c11Val, error) {
-		if len(in) < 2 {
+	c11Register("cram.Block.Value", func(in []byte) (c11Val, error) { return c11CramValueCase(in, false) })
+	// the same with a DECLARED raw size that is free (method, type, rawSize int32 LE, data): a compressed block's
+	// declared raw size is never compared with what the data expands to, so Value must not rely on it
+	c11Register("cram.Block.Value/rawsize", func(in []byte) (c11Val, error) { return c11CramValueCase(in, true) })
+}
+
+func c11CramValueCase(in []byte, withRaw bool) (c11Val, error) {
+	{
+		if len(in) < 2 || (withRaw && len(in) < 6) {
 			return c11Val{}, errors.New("harness: no method and type")
 		}
 		blk := c11CramBlock{method: in[0], typ: in[1], compSize: -2, rawSize: -2, data: in[2:]}
+		if withRaw {
+			blk.rawSize = int32(binary.LittleEndian.Uint32(in[2:6]))
+			blk.data = in[6:]
+			if blk.method == 0 {
+				blk.rawSize = -2 // Block.readFrom insists on rawSize == compressedSize for raw blocks
+			}
+		}
 		b, _, err := c11CramBlockOf(blk.encode())
 		if err != nil {
 			panic("harness: the wrapping block was rejected")
@@ -155,7 +169,7 @@ func init() {
 			_, _ = b.Value()
 		}
 		return v, nil
-	})
+	}
 }
 
 // c11CramExpand is what the standard decompressors answer for the data of a block (the parameter
@@ -368,6 +382,23 @@ func c11CramUnitCases(r *Rand, nRandom int, emit func(dec, mut string, b []byte)
 				val("ltext", e.method, 0, e.data)
 			}
 		}
+		if b.typ == 0 {
+			// declared raw size and inner text length both larger than the real content (two fields that agree
+			// with each other and not with the data)
+			p := clone(b.content())
+			for _, raw := range []int32{int32(len(p)) + 1, int32(len(p)) + 600, 70000, 1 << 20} {
+				for _, v := range []int32{int32(len(p)) - 3, int32(len(p)), 513, 65536, raw - 4, raw - 5} {
+					if len(p) < 4 {
+						continue
+					}
+					q := clone(p)
+					binary.LittleEndian.PutUint32(q, uint32(v))
+					in := []byte{1, 0, 0, 0, 0, 0}
+					binary.LittleEndian.PutUint32(in[2:], uint32(raw))
+					emit("cram.Block.Value/rawsize", "rawsize+ltext", append(in, c11Gzip(q)...))
+				}
+			}
+		}
 		if b.typ == 2 {
 			for n := 0; n <= len(b.data); n++ {
 				val("truncate", 0, 2, b.data[:n])
@@ -455,7 +486,13 @@ func c11CramModelLine(d *Driver, k c11Case, o c11Outcome) (string, bool) {
 		d.add("c11.cramcont %s", hexs(in))
 	case "cram.Block":
 		d.add("c11.cramblock %s", hexs(in))
-	case "cram.Block.Value":
+	case "cram.Block.Value", "cram.Block.Value/rawsize":
+		if k.Decoder == "cram.Block.Value/rawsize" {
+			if len(in) < 6 {
+				return "", false
+			}
+			in = append([]byte{in[0], in[1]}, in[6:]...) // the model (as the code) ignores the declared raw size
+		}
 		if len(in) < 2 {
 			return "", false
 		}
